@@ -23,7 +23,7 @@ P = {
          "Same histories through the writer, StatsdClient over the buffered spy sink, and through a QueuingMetricSink wrapper: every acknowledged metric is written exactly once by the next successful flush or drop, buffered ones in order, second flush writes nothing.",
          "queue path waits for the worker to hand over each metric before flushing (harness-observed)", "DESIGN.md §3 C06"),
  "C07": ("fault_enumeration", "property-based testing with generated fault scripts; exhaustive fail/succeed trees for short histories",
-         "Histories x fault scripts over the underlying writes (all-or-nothing, 13 error kinds with unique tokens, consecutive failures, bypass path, drop); thorough enumerates the whole fail/succeed tree for short op lists; bounded spy channel and a non-blocking Unix socket with a full receive queue as real injectors.",
+         "Histories x fault scripts over the underlying writes (all-or-nothing, 13 error kinds with unique tokens, consecutive failures, bypass path, drop); thorough enumerates the whole fail/succeed tree for short op lists; bounded spy channel and a non-blocking Unix socket with a full receive queue as real injectors. A real-socket seam with pending errors (connected UDP socket, peer gone for a moment, receiver re-bound): no line arrives twice, a refused metric never arrives, acknowledged lines arrive exactly once after an Ok flush.",
          "partial (prefix) writes are outside the property and not generated", "DESIGN.md §3 C07"),
  "C08": ("exploration", "model-based (stateful) property testing with a harness-owned schedule; sampled concurrent producers",
          "Generated histories of emit/clone/drop/step on a queuing sink over a gated wrapped sink; a FIFO spec model predicts every hand-over; the harness owns the schedule of the worker via the gate. Concurrent producer mode samples OS schedules.",
@@ -41,16 +41,16 @@ P = {
          "2..16 threads share one client over buffered spy / Unix / UDP sinks with generated workloads and yield patterns; datagram stream must be whole lines, each acknowledged metric exactly once, per-thread order kept.",
          "samples OS schedules, not reproducible from the seed; contention witnessed is reported", "DESIGN.md §3 C12, §6"),
  "C13": ("exploration", "property-based testing over real local sockets with a decoy receiver",
-         "Generated payloads (empty, multi-byte, up to the datagram limit) x blocking/non-blocking x buffered/unbuffered x capacities on 127.0.0.1 UDP and Unix datagram sockets; received datagrams compared with emitted bytes; decoy receiver must stay empty.",
+         "Generated payloads (empty, multi-byte, up to the datagram limit) x blocking/non-blocking x buffered/unbuffered x capacities on 127.0.0.1 UDP and Unix datagram sockets; received datagrams compared with emitted bytes; decoy receiver must stay empty. UDP receiver closed and re-bound between generated phases, judged against an identical sink whose receiver stays (metamorphic: an unconnected socket cannot observe its peer).",
          "kernel loopback semantics", "DESIGN.md §3 C13"),
  "C14": ("exploration", "property-based testing of socket histories with receiver up/down faults; stats vs ground truth",
-         "Histories with real send failures (closed receiver, oversize, EAGAIN) for the four socket sinks, also wrapped in a queuing sink and under concurrent emitters; stats() compared with datagrams received and errors returned.",
+         "Histories with real send failures (closed receiver, oversize, EAGAIN) for the four socket sinks, also wrapped in a queuing sink and under concurrent emitters; stats() compared with datagrams received and errors returned. UDP receiver-restart histories: stats() equal to those of an identical sink whose receiver never goes away, after every call.",
          "drop-time write failures are not observable and not judged", "DESIGN.md §3 C14"),
  "C15": ("exploration", "model-based property testing of counters at quiescent points; sampler thread under load",
          "Queue histories with refused emits, panics, clones: submitted/drained/queued equal the model at every quiescent point; a sampler thread checks 0 <= queued <= submitted under load.",
          "sampler part samples OS schedules", "DESIGN.md §3 C15"),
  "C16": ("fault_enumeration", "model-based property testing over {ok,err}^n with handler log ordering; exhaustive for n<=8",
-         "Outcome patterns with and without a configured handler: each wrapped-sink error is followed by exactly one handler call with that error on the worker thread before the next metric.",
+         "Outcome patterns with and without a configured handler: each wrapped-sink error is followed by exactly one handler call with that error on the worker thread before the next metric. The wrapped sink's flush() fails in half of the cases: that error is never a queued metric's, so the handler count must not move.",
          "", "DESIGN.md §3 C16"),
  "C17": ("exploration", "property-based differential testing in one fresh child process per generated global configuration",
          "Each generated (global client config, macro invocations) case runs in its own process; every macro line is compared with the reference renderer and with the explicit tagged-quiet-send chain; argument evaluation counted; unset state must panic.",
